@@ -51,6 +51,32 @@ Proof.
   - cbn [app]. rewrite <- !app_assoc. reflexivity.
 Qed.
 
+(* a number literal up to any character that cannot continue it (a blank as well as `)`, `&`, `|`) *)
+Lemma ev_tail_star_gen body c t pos : in_ranges c num_tail = false -> forallb (fun x => in_ranges x num_tail) body = true ->
+  evG (PStar (PCls false num_tail)) (body ++ c :: t) pos (POk (c :: t) (pos + List.length body) []).
+Proof.
+  intros Hq. revert pos. induction body as [|x r IH]; intros pos Hb.
+  - cbn [app List.length]. eapply ev_conv; [apply ev_star_stop; apply ev_cls_fail; rewrite Bool.xorb_false_l; exact Hq|f_equal; lia].
+  - cbn [forallb] in Hb. apply andb_true_iff in Hb. destruct Hb as [H1 H2]. cbn [app].
+    pose proof (ev_star_step G (PCls false num_tail) (x :: r ++ c :: t) pos _ (S pos) [] _ _ [] (ev_cls_ok G false num_tail x _ pos (eq_trans (Bool.xorb_false_l _) H1)) ltac:(lia) (IH (S pos) H2)) as E.
+    eapply ev_conv; [exact E|]. f_equal. cbn [List.length]. lia.
+Qed.
+Lemma ev_rule45_lit_gen lit c t pos : in_ranges c num_tail = false -> lit_ok lit = true ->
+  evG (PRef 45) (lit ++ c :: t) pos (POk (c :: t) (pos + List.length lit) [TText pos (pos + List.length lit); TAct 40]).
+Proof.
+  intros Hq H. destruct lit as [|c0 r]; [discriminate|]. cbn [lit_ok] in H. destruct (is_sign c0) eqn:Es.
+  - destruct r as [|d body]; [discriminate|]. apply andb_true_iff in H. destruct H as [Hd Hb]. eapply ev_conv.
+    + eapply ev_ref; [reflexivity|]. eapply ev_seq_ok; [apply ev_cap| apply ev_act |reflexivity].
+      eapply ev_seq_ok; [apply ev_opt_some; apply ev_cls_ok; rewrite Bool.xorb_false_l, sign_ranges; exact Es| |reflexivity].
+      eapply ev_seq_ok; [apply ev_cls_ok; rewrite Bool.xorb_false_l; exact Hd|apply (ev_tail_star_gen body c t _ Hq Hb)|reflexivity].
+    + cbn [List.length app]. replace (pos + S (S (List.length body)))%nat with (S (S pos) + List.length body)%nat by lia. reflexivity.
+  - apply andb_true_iff in H. destruct H as [Hd Hb]. eapply ev_conv.
+    + eapply ev_ref; [reflexivity|]. eapply ev_seq_ok; [apply ev_cap| apply ev_act |reflexivity].
+      eapply ev_seq_ok; [apply ev_opt_none; apply ev_cls_fail; rewrite Bool.xorb_false_l, sign_ranges; exact Es| |reflexivity].
+      eapply ev_seq_ok; [apply ev_cls_ok; rewrite Bool.xorb_false_l; exact Hd|apply (ev_tail_star_gen r c t _ Hq Hb)|reflexivity].
+    + cbn [List.length app]. replace (pos + S (List.length r))%nat with (S pos + List.length r)%nat by lia. reflexivity.
+Qed.
+
 Definition scmp39_tokens (pos : nat) (isteps : list rstep) (a : nat) (o : cmpop) (b : nat) (lit : list N) : list token :=
   let pr := (pos + 1 + List.length (render_steps isteps) + a + List.length (op_text o) + b)%nat in
   left43_tokens_sp pos isteps a ++ [TText pr (pr + List.length lit); TAct 40; TAct (lit_act o); TAct (op_act o)].
@@ -59,39 +85,60 @@ Section SCmpPeg.
   Variable isteps : list rstep.
   Variable lit t : list N.
   Variable c : N.
-  Variable a b : nat.
+  Variable a b g1 : nat.
   Hypothesis Hq : qend c.
   Hypothesis Hs : forallb rstep_ok isteps = true.
   Hypothesis Hl : lit_ok lit = true.
   Notation L := (List.length (render_steps isteps)).
-  Notation tail o := (op_text o ++ blanks b ++ lit ++ c :: t).
+  Notation after := (blanks g1 ++ c :: t).
+  Notation tail o := (op_text o ++ blanks b ++ lit ++ after).
+
+  Lemma after_head : exists c1 r1, after = c1 :: r1 /\ in_ranges c1 num_tail = false.
+  Proof.
+    destruct g1 as [|n]; [exists c, t; split; [reflexivity|apply qend_not_tail; exact Hq]|].
+    rewrite blanks_S. cbn [app]. eexists _, _. split; reflexivity.
+  Qed.
+  Lemma sright40 p : evG (PRef 40) (lit ++ after) p (POk after (p + List.length lit) [TText p (p + List.length lit); TAct 40; TAct 35]).
+  Proof.
+    destruct after_head as (c1 & r1 & E & Hn). rewrite E. eapply ev_conv.
+    - eapply ev_ref; [reflexivity|]. apply ev_alt_l. eapply ev_seq_ok; [|apply ev_act|reflexivity].
+      eapply ev_ref; [reflexivity|]. apply ev_alt_l. apply (ev_rule45_lit_gen lit c1 r1 p Hn Hl).
+    - reflexivity.
+  Qed.
+  Lemma sright41 p : evG (PRef 41) (lit ++ after) p (POk after (p + List.length lit) [TText p (p + List.length lit); TAct 40; TAct 36]).
+  Proof.
+    destruct after_head as (c1 & r1 & E & Hn). rewrite E. eapply ev_conv.
+    - eapply ev_ref; [reflexivity|]. apply ev_alt_l. eapply ev_seq_ok; [|apply ev_act|reflexivity]. apply (ev_rule45_lit_gen lit c1 r1 p Hn Hl).
+    - reflexivity.
+  Qed.
 
   Lemma sleft40 o pos : evG (PRef 40) (64 :: render_steps isteps ++ blanks a ++ tail o) pos (POk (tail o) (pos + 1 + L + a) (left43_tokens_sp pos isteps a)).
   Proof.
-    destruct (closer_op o (blanks b ++ lit ++ c :: t)) as (c1 & r' & E & Hc). rewrite E.
+    destruct (closer_op o (blanks b ++ lit ++ after)) as (c1 & r' & E & Hc). rewrite E.
     eapply ev_ref; [reflexivity|]. apply ev_alt_r; [apply ev_seq_fail; apply ev_rule42_at|]. apply (ev_rule43_sp isteps a c1 r' pos Hs Hc).
   Qed.
   Lemma sleft41 o pos : evG (PRef 41) (64 :: render_steps isteps ++ blanks a ++ tail o) pos (POk (tail o) (pos + 1 + L + a) (left43_tokens_sp pos isteps a)).
   Proof.
-    destruct (closer_op o (blanks b ++ lit ++ c :: t)) as (c1 & r' & E & Hc). rewrite E.
+    destruct (closer_op o (blanks b ++ lit ++ after)) as (c1 & r' & E & Hc). rewrite E.
     eapply ev_ref; [reflexivity|]. apply ev_alt_r; [apply ev_seq_fail; apply ev_rule45_at|]. apply (ev_rule43_sp isteps a c1 r' pos Hs Hc).
   Qed.
-  Lemma sspace_lit p : evG (PRef 58) (blanks b ++ lit ++ c :: t) p (POk (lit ++ c :: t) (p + b) []).
+  Lemma sspace_lit p : evG (PRef 58) (blanks b ++ lit ++ after) p (POk (lit ++ after) (p + b) []).
   Proof. destruct (lit_head lit Hl) as (c1 & r & E & H32 & _). apply ev_space_blanks. rewrite E. cbn [app]. exact H32. Qed.
   Lemma sspace_op o p : evG (PRef 58) (tail o) p (POk (tail o) p []).
   Proof. destruct o; cbn [op_text app]; apply ev_space_stop; discriminate. Qed.
 
   (* a one-character operator is not the two-character one: a blank or the literal follows, neither is `=` *)
-  Lemma sstrip_two_no x p : strip_prefix [x; 61] (x :: blanks b ++ lit ++ c :: p) = None.
+  Lemma sstrip_two_no x p : strip_prefix [x; 61] (x :: blanks b ++ lit ++ p) = None.
   Proof.
-    destruct b as [|b']; [cbn [blanks repeat app]; apply (strip_two_no lit c Hl x p)|].
+    destruct b as [|b']; [cbn [blanks repeat app]; destruct (lit_head lit Hl) as (c1 & r & E & _ & H61 & _); rewrite E; cbn [app strip_prefix]; rewrite N.eqb_refl;
+                          assert (E2 : (61 =? c1) = false) by (apply N.eqb_neq; intros H; apply H61; symmetry; exact H); rewrite E2; reflexivity|].
     rewrite blanks_S. cbn [app strip_prefix]. rewrite N.eqb_refl. reflexivity.
   Qed.
 
   Lemma sop_then_right (ref : nat) (a35 : nat) o p k :
-    (forall q, evG (PRef ref) (lit ++ c :: t) q (POk (c :: t) (q + List.length lit) [TText q (q + List.length lit); TAct 40; TAct a35])) ->
+    (forall q, evG (PRef ref) (lit ++ after) q (POk after (q + List.length lit) [TText q (q + List.length lit); TAct 40; TAct a35])) ->
     evG (PSeq (PLit (op_text o)) (PSeq (PRef 58) (PSeq (PRef ref) (PAct k)))) (tail o) p
-        (POk (c :: t) (p + List.length (op_text o) + b + List.length lit)
+        (POk after (p + List.length (op_text o) + b + List.length lit)
              [TText (p + List.length (op_text o) + b) (p + List.length (op_text o) + b + List.length lit); TAct 40; TAct a35; TAct k]).
   Proof.
     intros Hr. eapply ev_conv.
@@ -103,7 +150,7 @@ Section SCmpPeg.
 
   Theorem ev_rule39_scmp o pos :
     evG (PRef 39) (64 :: render_steps isteps ++ blanks a ++ tail o) pos
-        (POk (c :: t) (pos + 1 + L + a + List.length (op_text o) + b + List.length lit) (scmp39_tokens pos isteps a o b lit)).
+        (POk after (pos + 1 + L + a + List.length (op_text o) + b + List.length lit) (scmp39_tokens pos isteps a o b lit)).
   Proof.
     unfold scmp39_tokens. cbv zeta.
     assert (A1fail : forall o', (o' = OLt \/ o' = OLe \/ o' = OGt \/ o' = OGe) ->
@@ -115,33 +162,33 @@ Section SCmpPeg.
     eapply ev_ref; [reflexivity|]. destruct o.
     - (* == *) apply ev_alt_l. eapply ev_conv.
       + eapply ev_seq_ok; [apply sleft40| |reflexivity]. eapply ev_seq_ok; [apply sspace_op| |reflexivity].
-        apply ev_alt_l. apply (sop_then_right 40 35 OEq _ 28 (right40 lit t c Hq Hl)).
+        apply ev_alt_l. apply (sop_then_right 40 35 OEq _ 28 sright40).
       + cbn [op_text List.length app lit_act op_act]. f_equal; lia.
     - (* != *) apply ev_alt_l. eapply ev_conv.
       + eapply ev_seq_ok; [apply sleft40| |reflexivity]. eapply ev_seq_ok; [apply sspace_op| |reflexivity].
-        apply ev_alt_r; [apply ev_seq_fail; apply (ev_lit_fail G [61; 61]); reflexivity|]. apply (sop_then_right 40 35 ONe _ 29 (right40 lit t c Hq Hl)).
+        apply ev_alt_r; [apply ev_seq_fail; apply (ev_lit_fail G [61; 61]); reflexivity|]. apply (sop_then_right 40 35 ONe _ 29 sright40).
       + cbn [op_text List.length app lit_act op_act]. f_equal; lia.
     - (* < *) apply ev_alt_r; [apply (A1fail OLt); auto|]. apply ev_alt_l. eapply ev_conv.
       + eapply ev_seq_ok; [apply sleft41| |reflexivity]. eapply ev_seq_ok; [apply sspace_op| |reflexivity].
         apply ev_alt_r; [apply ev_seq_fail; apply (ev_lit_fail G [60; 61]); apply (sstrip_two_no 60)|].
-        apply ev_alt_l. apply (sop_then_right 41 36 OLt _ 31 (right41 lit t c Hq Hl)).
+        apply ev_alt_l. apply (sop_then_right 41 36 OLt _ 31 sright41).
       + cbn [op_text List.length app lit_act op_act]. f_equal; lia.
     - (* <= *) apply ev_alt_r; [apply (A1fail OLe); auto|]. apply ev_alt_l. eapply ev_conv.
       + eapply ev_seq_ok; [apply sleft41| |reflexivity]. eapply ev_seq_ok; [apply sspace_op| |reflexivity].
-        apply ev_alt_l. apply (sop_then_right 41 36 OLe _ 30 (right41 lit t c Hq Hl)).
+        apply ev_alt_l. apply (sop_then_right 41 36 OLe _ 30 sright41).
       + cbn [op_text List.length app lit_act op_act]. f_equal; lia.
     - (* > *) apply ev_alt_r; [apply (A1fail OGt); auto|]. apply ev_alt_l. eapply ev_conv.
       + eapply ev_seq_ok; [apply sleft41| |reflexivity]. eapply ev_seq_ok; [apply sspace_op| |reflexivity].
         apply ev_alt_r; [apply ev_seq_fail; apply (ev_lit_fail G [60; 61]); reflexivity|].
         apply ev_alt_r; [apply ev_seq_fail; apply (ev_lit_fail G [60]); reflexivity|].
         apply ev_alt_r; [apply ev_seq_fail; apply (ev_lit_fail G [62; 61]); apply (sstrip_two_no 62)|].
-        apply (sop_then_right 41 36 OGt _ 33 (right41 lit t c Hq Hl)).
+        apply (sop_then_right 41 36 OGt _ 33 sright41).
       + cbn [op_text List.length app lit_act op_act]. f_equal; lia.
     - (* >= *) apply ev_alt_r; [apply (A1fail OGe); auto|]. apply ev_alt_l. eapply ev_conv.
       + eapply ev_seq_ok; [apply sleft41| |reflexivity]. eapply ev_seq_ok; [apply sspace_op| |reflexivity].
         apply ev_alt_r; [apply ev_seq_fail; apply (ev_lit_fail G [60; 61]); reflexivity|].
         apply ev_alt_r; [apply ev_seq_fail; apply (ev_lit_fail G [60]); reflexivity|].
-        apply ev_alt_l. apply (sop_then_right 41 36 OGe _ 32 (right41 lit t c Hq Hl)).
+        apply ev_alt_l. apply (sop_then_right 41 36 OGe _ 32 sright41).
       + cbn [op_text List.length app lit_act op_act]. f_equal; lia.
   Qed.
 End SCmpPeg.
@@ -150,39 +197,91 @@ Lemma blanks_len n : List.length (blanks n) = n.
 Proof. unfold blanks. apply repeat_length. Qed.
 Lemma scmp_inner_len i a o b lit : List.length (scmp_inner i a o b lit) = (1 + List.length (render_steps i) + a + List.length (op_text o) + b + List.length lit)%nat.
 Proof. unfold scmp_inner. cbn [List.length]. rewrite !app_length, !blanks_len. lia. Qed.
-Lemma scmp_text_len i a o b lit : List.length (scmp_text i a o b lit) = (6 + List.length (render_steps i) + a + List.length (op_text o) + b + List.length lit)%nat.
-Proof. unfold scmp_text. rewrite !app_length, scmp_inner_len. cbn [List.length]. lia. Qed.
+Lemma scmp_text_len i g0 a o b g1 lit : List.length (scmp_text i g0 a o b g1 lit) = (6 + g0 + List.length (render_steps i) + a + List.length (op_text o) + b + List.length lit + g1)%nat.
+Proof. unfold scmp_text. rewrite !app_length, scmp_inner_len, !blanks_len. cbn [List.length]. lia. Qed.
 
-Definition scmp_tokens (p : nat) (i : list rstep) (a : nat) (o : cmpop) (b : nat) (lit : list N) : list token :=
+(* from a basicQuery to the bracket, with g0 blanks after `?(` and g1 before `)` *)
+Lemma ev_rule33_of35_sp X g1 r pos p' toks : evG (PRef 35) (X ++ blanks g1 ++ 41 :: r) pos (POk (blanks g1 ++ 41 :: r) p' toks) ->
+  evG (PRef 33) (X ++ blanks g1 ++ 41 :: r) pos (POk (blanks g1 ++ 41 :: r) p' toks).
+Proof.
+  intros E. eapply ev_conv.
+  - eapply ev_ref; [reflexivity|].
+    eapply ev_seq_ok; [| |reflexivity].
+    + eapply ev_ref; [reflexivity|].
+      eapply ev_seq_ok; [exact E| |reflexivity].
+      apply ev_star_stop. apply ev_seq_fail. eapply ev_ref; [reflexivity|].
+      eapply ev_seq_fail2; [apply (ev_space_blanks g1 (41 :: r)); discriminate|]. apply ev_seq_fail. apply (ev_lit_fail G [38; 38]). reflexivity.
+    + apply ev_star_stop. apply ev_seq_fail. eapply ev_ref; [reflexivity|].
+      eapply ev_seq_fail2; [apply (ev_space_blanks g1 (41 :: r)); discriminate|]. apply ev_seq_fail. apply (ev_lit_fail G [124; 124]). reflexivity.
+  - rewrite !app_nil_r. reflexivity.
+Qed.
+
+Lemma ev_rule7_of35_sp g0 X g1 r pos toks : (forall x0 r0, X = x0 :: r0 -> x0 <> 32) -> X <> [] ->
+  evG (PRef 35) (X ++ blanks g1 ++ 41 :: 93 :: r) (pos + 3 + g0) (POk (blanks g1 ++ 41 :: 93 :: r) (pos + 3 + g0 + List.length X) toks) ->
+  evG (PRef 7) ([91; 63; 40] ++ blanks g0 ++ X ++ blanks g1 ++ [41; 93] ++ r) pos
+      (POk r (pos + 5 + g0 + List.length X + g1) (toks ++ [TAct 23; TText pos (pos + 5 + g0 + List.length X + g1); TAct 7])).
+Proof.
+  intros Hx Hne E. destruct X as [|x0 X']; [contradiction Hne; reflexivity|]. pose proof (Hx x0 X' eq_refl) as E0.
+  eapply ev_ref; [reflexivity|].
+  apply ev_alt_r; [apply ev_seq_fail; apply (ev_lit_fail G [46; 46]); reflexivity|].
+  apply ev_alt_r; [apply ev_seq_fail; apply ev_cap_fail; apply ev_seq_fail; apply (ev_lit_fail G [46]); reflexivity|].
+  cbn [app]. eapply ev_conv.
+  - eapply ev_ref; [reflexivity|].
+    eapply ev_seq_ok; [apply ev_cap|apply ev_act|reflexivity].
+    eapply ev_seq_ok; [| |reflexivity].
+    + eapply ev_ref; [reflexivity|]. eapply ev_seq_ok; [apply (ev_lit_ok G [91]); apply strip1_ok|apply ev_space_stop; discriminate|reflexivity].
+    + eapply ev_seq_ok; [| |reflexivity].
+      * apply ev_alt_r; [apply ev_rule15_q|].
+        eapply ev_ref; [reflexivity|].
+        apply ev_alt_r; [apply ev_rule23_q|].
+        apply ev_alt_r; [eapply ev_ref; [reflexivity|]; apply ev_seq_fail; eapply ev_ref; [reflexivity|]; apply ev_seq_fail; apply (ev_lit_fail G [40]); reflexivity|].
+        eapply ev_ref; [reflexivity|].
+        eapply ev_seq_ok; [| |reflexivity].
+        -- eapply ev_ref; [reflexivity|]. eapply ev_seq_ok; [apply (ev_lit_ok G [63; 40]); reflexivity|apply (ev_space_blanks g0 ((x0 :: X') ++ blanks g1 ++ [41; 93] ++ r)); exact E0|reflexivity].
+        -- eapply ev_seq_ok; [| |reflexivity].
+           ++ pose proof (ev_rule33_of35_sp (x0 :: X') g1 (93 :: r) (pos + 3 + g0) _ _ E) as E33.
+              assert (E33' : evG (PRef 33) ((x0 :: X') ++ blanks g1 ++ [41; 93] ++ r) (pos + List.length [91] + List.length [63; 40] + g0)%nat
+                                 (POk (blanks g1 ++ 41 :: 93 :: r) (pos + 3 + g0 + List.length (x0 :: X')) toks))
+                by (replace (pos + List.length [91] + List.length [63; 40] + g0)%nat with (pos + 3 + g0)%nat by (cbn [List.length]; lia); exact E33).
+              exact E33'.
+           ++ eapply ev_seq_ok; [|apply ev_act|reflexivity].
+              eapply ev_ref; [reflexivity|]. eapply ev_seq_ok; [apply (ev_space_blanks g1 (41 :: 93 :: r)); discriminate|apply (ev_lit_ok G [41]); apply strip1_ok|reflexivity].
+      * eapply ev_ref; [reflexivity|]. eapply ev_seq_ok; [apply ev_space_stop; discriminate|apply (ev_lit_ok G [93]); apply strip1_ok|reflexivity].
+  - cbn [List.length app Nat.add]. f_equal; try lia.
+    replace (pos + 3 + g0 + S (List.length X') + g1 + 1 + 1)%nat with (pos + 5 + g0 + S (List.length X') + g1)%nat by lia.
+    repeat (progress (cbn [app]) || rewrite <- app_assoc || rewrite app_nil_r). reflexivity.
+Qed.
+
+Definition scmp_tokens (p : nat) (i : list rstep) (g0 a : nat) (o : cmpop) (b g1 : nat) (lit : list N) : list token :=
   let n := (1 + List.length (render_steps i) + a + List.length (op_text o) + b + List.length lit)%nat in
-  scmp39_tokens (p + 3) i a o b lit ++ [TText (p + 3) (p + 3 + n); TAct 26; TAct 23; TText p (p + 5 + n); TAct 7].
+  scmp39_tokens (p + 3 + g0) i a o b lit ++ [TText (p + 3 + g0) (p + 3 + g0 + n); TAct 26; TAct 23; TText p (p + 5 + g0 + n + g1); TAct 7].
 
-Lemma ev_rule7_scmp i a o b lit r pos : forallb rstep_ok i = true -> lit_ok lit = true ->
-  evG (PRef 7) (scmp_text i a o b lit ++ r) pos (POk r (pos + List.length (scmp_text i a o b lit)) (scmp_tokens pos i a o b lit)).
+Lemma ev_rule7_scmp i g0 a o b g1 lit r pos : forallb rstep_ok i = true -> lit_ok lit = true ->
+  evG (PRef 7) (scmp_text i g0 a o b g1 lit ++ r) pos (POk r (pos + List.length (scmp_text i g0 a o b g1 lit)) (scmp_tokens pos i g0 a o b g1 lit)).
 Proof.
   intros Hs Hl. unfold scmp_tokens. cbv zeta.
   set (X := scmp_inner i a o b lit).
   pose proof (scmp_inner_len i a o b lit) as HX. fold X in HX.
-  assert (E35 : evG (PRef 35) (X ++ 41 :: 93 :: r) (pos + 3) (POk (41 :: 93 :: r) (pos + 3 + List.length X)
-                    (scmp39_tokens (pos + 3) i a o b lit ++ [TText (pos + 3) (pos + 3 + List.length X); TAct 26]))).
+  assert (E35 : evG (PRef 35) (X ++ blanks g1 ++ 41 :: 93 :: r) (pos + 3 + g0) (POk (blanks g1 ++ 41 :: 93 :: r) (pos + 3 + g0 + List.length X)
+                    (scmp39_tokens (pos + 3 + g0) i a o b lit ++ [TText (pos + 3 + g0) (pos + 3 + g0 + List.length X); TAct 26]))).
   { unfold X, scmp_inner.
-    replace ((64 :: render_steps i ++ blanks a ++ op_text o ++ blanks b ++ lit) ++ 41 :: 93 :: r)
-      with (64 :: render_steps i ++ blanks a ++ op_text o ++ blanks b ++ lit ++ 41 :: 93 :: r)
+    replace ((64 :: render_steps i ++ blanks a ++ op_text o ++ blanks b ++ lit) ++ blanks g1 ++ 41 :: 93 :: r)
+      with (64 :: render_steps i ++ blanks a ++ op_text o ++ blanks b ++ lit ++ blanks g1 ++ 41 :: 93 :: r)
       by (cbn [app]; rewrite <- !app_assoc; reflexivity).
     eapply ev_conv.
     - eapply ev_ref; [reflexivity|].
       apply ev_alt_r; [apply ev_seq_fail; eapply ev_ref; [reflexivity|]; apply ev_seq_fail; apply (ev_lit_fail G [40]); reflexivity|].
-      apply ev_alt_l. eapply ev_seq_ok; [apply ev_cap; apply (ev_rule39_scmp i lit (93 :: r) 41 a b (or_introl eq_refl) Hs Hl o (pos + 3))|apply ev_act|reflexivity].
+      apply ev_alt_l. eapply ev_seq_ok; [apply ev_cap; apply (ev_rule39_scmp i lit (93 :: r) 41 a b g1 (or_introl eq_refl) Hs Hl o (pos + 3 + g0))|apply ev_act|reflexivity].
     - fold (scmp_inner i a o b lit). fold X. rewrite HX.
-      replace (pos + 3 + 1 + List.length (render_steps i) + a + List.length (op_text o) + b + List.length lit)%nat
-        with (pos + 3 + (1 + List.length (render_steps i) + a + List.length (op_text o) + b + List.length lit))%nat by lia.
+      replace (pos + 3 + g0 + 1 + List.length (render_steps i) + a + List.length (op_text o) + b + List.length lit)%nat
+        with (pos + 3 + g0 + (1 + List.length (render_steps i) + a + List.length (op_text o) + b + List.length lit))%nat by lia.
       rewrite <- !app_assoc. reflexivity. }
-  replace (scmp_text i a o b lit ++ r) with ([91; 63; 40] ++ X ++ [41; 93] ++ r)
+  replace (scmp_text i g0 a o b g1 lit ++ r) with ([91; 63; 40] ++ blanks g0 ++ X ++ blanks g1 ++ [41; 93] ++ r)
     by (unfold scmp_text; fold X; rewrite <- !app_assoc; reflexivity).
-  eapply ev_conv; [apply (ev_rule7_of35 X r pos _ ltac:(unfold X, scmp_inner; intros x0 r0 E; inversion E; discriminate) ltac:(unfold X, scmp_inner; discriminate) E35)|].
+  eapply ev_conv; [apply (ev_rule7_of35_sp g0 X g1 r pos _ ltac:(unfold X, scmp_inner; intros x0 r0 E; inversion E; discriminate) ltac:(unfold X, scmp_inner; discriminate) E35)|].
   rewrite scmp_text_len, HX.
-  replace (pos + (6 + List.length (render_steps i) + a + List.length (op_text o) + b + List.length lit))%nat
-    with (pos + 5 + (1 + List.length (render_steps i) + a + List.length (op_text o) + b + List.length lit))%nat by lia.
+  replace (pos + (6 + g0 + List.length (render_steps i) + a + List.length (op_text o) + b + List.length lit + g1))%nat
+    with (pos + 5 + g0 + (1 + List.length (render_steps i) + a + List.length (op_text o) + b + List.length lit) + g1)%nat by lia.
   rewrite <- !app_assoc. reflexivity.
 Qed.
 
@@ -194,27 +293,30 @@ Section SCmpExec.
   Notation execute := (execute cfg parse_float regex_ok).
   Notation exec_action := (exec_action cfg parse_float regex_ok).
 
-  Definition scmp_basic (i : list rstep) (a : nat) (o : cmpop) (b : nat) (lit : list N) : basic :=
-    mk_basic (text_of (scmp_text i a o b lit)) true (cfg_accessor cfg).
-  Definition scmp_node (i : list rstep) (a : nat) (o : cmpop) (b : nat) (lit : list N) (f : num) : node :=
-    Node (cmp_kind cfg i o f) (scmp_basic i a o b lit) ONone.
+  Definition scmp_basic (i : list rstep) (g0 a : nat) (o : cmpop) (b g1 : nat) (lit : list N) : basic :=
+    mk_basic (text_of (scmp_text i g0 a o b g1 lit)) true (cfg_accessor cfg).
+  Definition scmp_node (i : list rstep) (g0 a : nat) (o : cmpop) (b g1 : nat) (lit : list N) (f : num) : node :=
+    Node (cmp_kind cfg i o f) (scmp_basic i g0 a o b g1 lit) ONone.
 
-  Lemma exec_scmp input p i a o b0 lit f rest ps toks cps b : forallb rstep_ok i = true -> steps_vg i = false ->
+  Lemma exec_scmp input p i g0 a o b0 g1 lit f rest ps toks cps b : forallb rstep_ok i = true -> steps_vg i = false ->
     parse_float (text_of lit) = Some f ->
-    skipn p input = scmp_text i a o b0 lit ++ rest ->
-    exists cps' b', execute (scmp_tokens p i a o b0 lit ++ toks) input cps b (mk ps) = execute toks input cps' b' (mk (ps ++ [INode (scmp_node i a o b0 lit f)])).
+    skipn p input = scmp_text i g0 a o b0 g1 lit ++ rest ->
+    exists cps' b', execute (scmp_tokens p i g0 a o b0 g1 lit ++ toks) input cps b (mk ps) =
+                    execute toks input cps' b' (mk (ps ++ [INode (scmp_node i g0 a o b0 g1 lit f)])).
   Proof.
     intros Hs Hvg Hpf Hin. unfold scmp_tokens, scmp39_tokens, left43_tokens_sp. cbv zeta.
     set (L := List.length (render_steps i)). set (K := List.length (op_text o)). set (M := List.length lit).
-    assert (Hin' : skipn p input = [91; 63; 40] ++ (64 :: render_steps i) ++ blanks a ++ op_text o ++ blanks b0 ++ lit ++ [41; 93] ++ rest).
-    { rewrite Hin. unfold scmp_text, scmp_inner. cbn [app]. rewrite <- !app_assoc. reflexivity. }
-    assert (Hsk3 : skipn (p + 3) input = 64 :: render_steps i ++ blanks a ++ op_text o ++ blanks b0 ++ lit ++ [41; 93] ++ rest) by (apply (skipn_next input p [91; 63; 40] _ Hin')).
+    assert (Hin' : skipn p input = ([91; 63; 40] ++ blanks g0) ++ (64 :: render_steps i) ++ blanks a ++ op_text o ++ blanks b0 ++ lit ++ blanks g1 ++ [41; 93] ++ rest).
+    { rewrite Hin. unfold scmp_text, scmp_inner. repeat (progress (cbn [app]) || rewrite <- app_assoc). reflexivity. }
+    assert (Hsk3 : skipn (p + 3 + g0) input = 64 :: render_steps i ++ blanks a ++ op_text o ++ blanks b0 ++ lit ++ blanks g1 ++ [41; 93] ++ rest).
+    { pose proof (skipn_next input p ([91; 63; 40] ++ blanks g0) _ Hin') as H. rewrite app_length, blanks_len in H. cbn [List.length] in H.
+      replace (p + (3 + g0))%nat with (p + 3 + g0)%nat in H by lia. exact H. }
     set (sv0 := match ps with [] => [] | _ :: _ => [ps] end).
     rewrite <- !app_assoc. cbn [app Actions.execute].
     assert (E38 : exec_action 38 cps b (mk ps) = AOk (with_saved sv0 (mk []))) by (destruct ps; reflexivity).
     rewrite E38. cbn [abind].
-    rewrite (execute_under cfg parse_float regex_ok sv0 (inner_tokens (p + 3) i) input cps b (mk []) _ ltac:(unfold inner_tokens; rewrite !frame_free_app, frame_free_steps; reflexivity)
-               (exec_inner cfg parse_float regex_ok input (p + 3) i _ cps b Hs Hsk3)).
+    rewrite (execute_under cfg parse_float regex_ok sv0 (inner_tokens (p + 3 + g0) i) input cps b (mk []) _ ltac:(unfold inner_tokens; rewrite !frame_free_app, frame_free_steps; reflexivity)
+               (exec_inner cfg parse_float regex_ok input (p + 3 + g0) i _ cps b Hs Hsk3)).
     cbn [Actions.execute].
     assert (E39 : forall c0 b1, exec_action 39 c0 b1 (with_saved sv0 (mk [INode (inner_root cfg i)])) =
                                AOk (mk (ps ++ [IPQ (filter_pq cfg i); IBool false]))).
@@ -228,11 +330,11 @@ Section SCmpExec.
       change (ps ++ [IPQ (filter_pq cfg i); IBool false]) with (ps ++ [IPQ (filter_pq cfg i)] ++ [IBool false]). rewrite app_assoc, pop_mk. cbn [abind].
       rewrite pop_mk. cbn [abind]. unfold cmp_left, filter_pq. rewrite (operand_vg cfg), Hvg. reflexivity. }
     rewrite E37. cbn [abind].
-    assert (Elit : sub_list input (p + 3 + 1 + L + a + K + b0) (p + 3 + 1 + L + a + K + b0 + M) = lit).
-    { pose proof (sub_at input p (3 + 1 + L + a + K + b0) ([91; 63; 40] ++ (64 :: render_steps i) ++ blanks a ++ op_text o ++ blanks b0) lit ([41; 93] ++ rest)) as H.
-      replace (p + (3 + 1 + L + a + K + b0))%nat with (p + 3 + 1 + L + a + K + b0)%nat in H by lia. apply H.
+    assert (Elit : sub_list input (p + 3 + g0 + 1 + L + a + K + b0) (p + 3 + g0 + 1 + L + a + K + b0 + M) = lit).
+    { pose proof (sub_at input p (3 + g0 + 1 + L + a + K + b0) (([91; 63; 40] ++ blanks g0) ++ (64 :: render_steps i) ++ blanks a ++ op_text o ++ blanks b0) lit (blanks g1 ++ [41; 93] ++ rest)) as H.
+      replace (p + (3 + g0 + 1 + L + a + K + b0))%nat with (p + 3 + g0 + 1 + L + a + K + b0)%nat in H by lia. apply H.
       - rewrite Hin'. rewrite <- !app_assoc. reflexivity.
-      - unfold L, K. cbn [List.length app]. rewrite !app_length, !blanks_len. cbn [List.length]. lia. }
+      - unfold L, K. repeat (first [rewrite app_length | rewrite blanks_len | progress cbn [List.length]]). lia. }
     fold L K M. rewrite Elit.
     assert (E40 : forall b1 st, exec_action 40 lit b1 st = AOk (push (INum f) st)) by (intros b1 st; cbn [Actions.exec_action]; rewrite Hpf; reflexivity).
     rewrite E40. cbn [abind].
@@ -254,13 +356,13 @@ Section SCmpExec.
                                AOk (mk (ps ++ [INode (Node (cmp_kind cfg i o f) (mk_basic "" true (cfg_accessor cfg)) ONone)]))).
     { intros c0 b1. cbn [Actions.exec_action]. unfold pop_query. rewrite pop_mk. reflexivity. }
     rewrite E23. cbn [abind].
-    assert (Et : sub_list input p (p + 5 + (1 + L + a + K + b0 + M)) = scmp_text i a o b0 lit).
-    { pose proof (sub_at input p 0 [] (scmp_text i a o b0 lit) rest) as H. rewrite Nat.add_0_r in H.
-      replace (p + 5 + (1 + L + a + K + b0 + M))%nat with (p + List.length (scmp_text i a o b0 lit))%nat by (rewrite scmp_text_len; unfold L, K, M; lia).
+    assert (Et : sub_list input p (p + 5 + g0 + (1 + L + a + K + b0 + M) + g1) = scmp_text i g0 a o b0 g1 lit).
+    { pose proof (sub_at input p 0 [] (scmp_text i g0 a o b0 g1 lit) rest) as H. rewrite Nat.add_0_r in H.
+      replace (p + 5 + g0 + (1 + L + a + K + b0 + M) + g1)%nat with (p + List.length (scmp_text i g0 a o b0 g1 lit))%nat by (rewrite scmp_text_len; unfold L, K, M; lia).
       apply H; [exact Hin|reflexivity]. }
     rewrite Et.
-    assert (E7 : forall b1, exec_action 7 (scmp_text i a o b0 lit) b1 (mk (ps ++ [INode (Node (cmp_kind cfg i o f) (mk_basic "" true (cfg_accessor cfg)) ONone)])) =
-                            AOk (mk (ps ++ [INode (scmp_node i a o b0 lit f)]))).
+    assert (E7 : forall b1, exec_action 7 (scmp_text i g0 a o b0 g1 lit) b1 (mk (ps ++ [INode (Node (cmp_kind cfg i o f) (mk_basic "" true (cfg_accessor cfg)) ONone)])) =
+                            AOk (mk (ps ++ [INode (scmp_node i g0 a o b0 g1 lit f)]))).
     { intros b1. cbn [Actions.exec_action]. unfold set_last_node_text, pop_node. rewrite pop_mk. reflexivity. }
     rewrite E7. cbn [abind]. eexists _, _. reflexivity.
   Qed.
